@@ -207,8 +207,17 @@ def coq_eval(name, source, timeout=900):
     with open(path, "w") as f:
         f.write(source)
     rc, out, err = sh(["coqc", "-noglob", "-Q", COQ, "PL", path], timeout=timeout, cwd=d)
+    for ext in (".vo", ".vok", ".vos", ".glob"):       # only coqc's output is wanted: the compiled files are dropped at once (disk)
+        try:
+            os.remove(os.path.join(d, name + ext))
+        except OSError:
+            pass
     if rc != 0:
         raise InfraError(f"model evaluation {name} failed (rc={rc}): " + (err or out)[-3000:])
+    try:
+        os.remove(path)
+    except OSError:
+        pass
     return out
 
 def parse_N_list(out):
